@@ -189,6 +189,41 @@ def tie_both_styles(ck, pool, cases):
             ck.hist("tree:" + f)
 
 
+SUB_SELS = ["a", ".x", "#i", "a.x", "div", "é", "b#j.k", "*", "a:hover", "[t=v]"]
+SUB_NAMES = ["b", "c", "width", "margin-top", "x-y", "--v"]
+SUB_VALUES = ["c", "auto", "10px", "2em", "solid", "a-b", "x1", "12", "é", "100%"]
+
+
+def read_tie(ck, pool, n):
+    """Declaration-only trees (the domain of C06_style_equiv_model_partial): the Lean reader `readCss`, run by
+    the driver on GRASS's own text in both styles, must return the rule list of the tree."""
+    rng = ck.rng
+    cases = []
+    for _ in range(n):
+        rules = []
+        for _ in range(rng.choice([0, 1, 2, 3, 4])):
+            decls = [(rng.choice(SUB_NAMES[:5]), rng.choice(SUB_VALUES)) for _ in range(rng.choice([0, 1, 1, 2, 3]))]
+            rules.append((rng.choice(SUB_SELS), decls))
+        src = "\n".join(sel + " {" + " ".join(f"{n}: {v};" for n, v in ds) + "}" for sel, ds in rules) + "\n"
+        exp = "|".join(hexs(sel) + "=" + ",".join(hexs(n) + ":" + hexs(v) for n, v in ds) for sel, ds in rules if ds)
+        cases.append((src, exp))
+    jobs = [compile_job(src, style=st, syntax="scss", charset=False) for src, _ in cases for st in c05.STYLES]
+    ans = cc.run_jobs(pool, jobs)
+    reqs = ["ser read " + hexs(a.get("css") or "") for a in ans]
+    outs = driver(reqs)
+    for i, (src, exp) in enumerate(cases):
+        for j, st in enumerate(c05.STYLES):
+            a, o = ans[2 * i + j], outs[2 * i + j]
+            ck.count(("read-tie", src, st), exp != "")
+            ck.hist("read-tie:" + ("nonempty" if exp else "empty"))
+            want = "ok " + exp if exp else "ok "
+            if a.get("status") != "ok" or o.strip() != want.strip():
+                ck.cov["model_disagreements"] += 1
+                if len(ck.disagreements) < 3:
+                    ck.disagreements.append({"source": src, "style": st or "expanded", "reader_on_grass_text": o,
+                                             "expected_rules": want, "impl_text": a.get("css"), "impl_status": a.get("status")})
+
+
 def report(ck, pool, fails):
     fails.sort(key=lambda f: len(f["src"]))
     seen, reported = set(), 0
@@ -257,7 +292,8 @@ def run(tier, seed):
     for i, c in enumerate(tcases):
         c["clean"] = i < n_clean
     tie_both_styles(ck, pool, tcases)
-    log(f"[C06] tie: {len(tcases)} trees, disagreements={ck.cov['model_disagreements']}")
+    read_tie(ck, pool, 600 if tier == "quick" else 6000)
+    log(f"[C06] tie: {len(tcases)} trees + reader tie, disagreements={ck.cov['model_disagreements']}")
     # direct
     fails += compare_styles(ck, pool, [{"key": "tree:" + str(i), "src": c["src"], "syntax": "scss"} for i, c in enumerate(tcases)], "gen-tree")
     log(f"[C06] gen-tree done at {round(_t.time() - ck.t0)}s")
